@@ -312,7 +312,17 @@ func runC24(c *Ctx) []Obligation {
 
 func runC21(c *Ctx) []Obligation {
 	P := "C21"
+	kvs := `invoke types\.Ctx\.KVStore\(ctx, k\.storeKey\)`
 	rows := []Row{
+		// the power index: one key function for insert and delete, key = prefix | big-endian power | inverted address
+		{Prop: P, ID: "powerindex.insert-key-and-value", Fn: "(x/nodes/keeper.Keeper).SetStakedValidator",
+			Target: CallTo(`^invoke types\.KVStore\.Set\(`).Except(`^invoke types\.KVStore\.Set\(` + kvs + `, x/nodes/types\.KeyForValidatorInStakingSet\(validator\), validator\.Address\)$`), Why: "a node is indexed under the key of its own record and the entry holds its address"},
+		{Prop: P, ID: "powerindex.delete-same-key-function", Fn: "(x/nodes/keeper.Keeper).deleteValidatorFromStakingSet",
+			Target: CallTo(`^invoke types\.KVStore\.Delete\(`).Except(`^invoke types\.KVStore\.Delete\(` + kvs + `, x/nodes/types\.KeyForValidatorInStakingSet\(validator\)\)$`), Why: "the entry is deleted under the key computed by the same function"},
+		{Prop: P, ID: "powerindex.key-is-power-rank-key", Fn: "x/nodes/types.KeyForValidatorInStakingSet", Target: RetNotMatch(0, `^x/nodes/types\.getStakedValPowerRankKey\(validator\)$`), Why: "the index key is the power-rank key of the record"},
+		{Prop: P, ID: "powerindex.key-prefix", Fn: "x/nodes/types.getStakedValPowerRankKey", Target: StoreTo(`^makeslice<\[\]byte>\[0\]$`).ExceptVal(`^x/nodes/types\.StakedValidatorsKey\[0\]$`), Why: "index keys live under the staked-validators prefix (the prefix the iterators scan)"},
+		{Prop: P, ID: "powerindex.key-power-big-endian", Fn: "x/nodes/types.getStakedValPowerRankKey",
+			Target: CallTo(`PutUint64\(`).Except(`^\(encoding/binary\.bigEndian\)\.PutUint64\(encoding/binary\.BigEndian, .*, conv<uint64>\(types\.TokensToConsensusPower\(validator\.StakedTokens\)\)\)$`), Why: "the power of the record's own stake, big-endian so that byte order is numeric order"},
 		{Prop: P, ID: "removeTokens.delete-old-power-entry", Fn: "(x/nodes/keeper.Keeper).removeValidatorTokens",
 			Barrier: []string{`^` + kN + `deleteValidatorFromStakingSet\(k, ctx, v\)$`}, Target: CallTo(`RemoveStakedTokens\(|` + kN + `SetValidator\(`), TargetMustExist: true,
 			Why: "the power-index entry of the old stake is deleted before the stake changes"},
